@@ -214,7 +214,8 @@ Section Transparent.
             specialize (Hnil {| ck_rep := rep; ck_header := rq_header rq; ck_footer := rq_footer rq |}).
             apply Hnil. unfold keys_of. apply in_map_iff. exists rep. split; [reflexivity|exact Hrep]. }
         unfold errors_member. rewrite Hvals, <- K. unfold keys_of. rewrite map_map. reflexivity.
-      + change (resp_eqv (fst (after_miss x1' rq)) (fst (upstream oracle headers x2 rq)) /\ cache_ok (cs_cache (snd (after_miss x1' rq)))).
+      + rewrite <- K.
+        change (resp_eqv (fst (after_miss x1' rq)) (fst (upstream oracle headers x2 rq)) /\ cache_ok (cs_cache (snd (after_miss x1' rq)))).
         apply after_miss_ok; assumption.
   Qed.
 
@@ -238,3 +239,152 @@ Section Transparent.
     fst (run_history (exchange_plain oracle headers) h init_cstate).
   Proof. intros h. apply history_transparent. intros e []. Qed.
 End Transparent.
+
+(* ---- stored => clean source with a storable Cache-Control ---- *)
+Section Stored.
+  Variable oracle : request -> response.
+  Variable headers : nat -> N -> list bytes.
+  Variable cfaults : nat -> cfault.
+  Variable default_ttl : Z.
+
+  Lemma collect_sound : forall keys rq res items, keys = keys_of rq ->
+    collect default_ttl keys res = CItems items -> forall e, In e items -> stored_from default_ttl e rq res.
+  Proof.
+    intros keys rq res items Hk Hc e Hin. unfold collect in Hc.
+    destruct (rs_err res) eqn:Eerr; [discriminate|].
+    destruct (rs_body res) as [| |resp] eqn:Eb; try discriminate.
+    { destruct (400 <=? rs_status res); discriminate. }
+    destruct (400 <=? rs_status res) eqn:Est; [discriminate|].
+    assert (Hne : resp_has_errors res = false).
+    { unfold resp_has_errors. rewrite Eb. destruct (get_loc [PName k_errors] resp) as [[| | | |[|]|]|]; try reflexivity. discriminate. }
+    assert (Hc' : match ttl (rs_cc res) default_ttl with
+                  | None => CNothing
+                  | Some t =>
+                    match get_loc [PName k_data; PName k_entities] resp with
+                    | Some (JArr vals) =>
+                      if Nat.eqb (length vals) (length keys) then
+                        CItems (flat_map (fun kv => match snd kv with
+                                                    | JObj _ => [{| ce_key := fst kv; ce_value := snd kv; ce_ttl := t |}]
+                                                    | _ => []
+                                                    end) (combine keys vals))
+                      else CError
+                    | _ => CError
+                    end
+                  end = CItems items).
+    { destruct (get_loc [PName k_errors] resp) as [[| | | |[|]|]|]; try exact Hc. discriminate. }
+    clear Hc. destruct (ttl (rs_cc res) default_ttl) as [t|] eqn:Et; [|discriminate].
+    destruct (get_loc [PName k_data; PName k_entities] resp) as [[| | | |vals|]|]; try discriminate.
+    destruct (Nat.eqb (length vals) (length keys)); [|discriminate].
+    inversion Hc'; subst items. clear Hc'.
+    apply in_flat_map in Hin as ((k, v) & Hkv & He). simpl in He.
+    destruct v; simpl in He; try contradiction. destruct He as [<-|[]]. simpl.
+    unfold stored_from. cbn [ce_key ce_ttl].
+    refine (conj _ (conj _ (conj _ (conj _ (conj _ _))))).
+    - rewrite <- Hk. eapply in_combine_l; exact Hkv.
+    - exact Eerr.
+    - apply N.ltb_lt. apply N.leb_gt in Est. exact Est.
+    - exact Hne.
+    - exact Et.
+    - pose proof (ttl_sound_dialect (rs_cc res) default_ttl) as S. rewrite Et in S. exact S.
+  Qed.
+
+  Definition log_ok (x : cstate) : Prop :=
+    forall items stored err e, In (OpSet items stored err) (cs_log x) -> In e items ->
+    exists run rq res, In (run, rq, res) (cs_upstream x) /\ stored_from default_ttl e rq res.
+
+  Lemma exchange_log_ok : forall x rq, log_ok x -> log_ok (snd (exchange_cache oracle headers cfaults default_ttl x rq)).
+  Proof.
+    intros x rq H. unfold exchange_cache.
+    assert (Hup : forall y, log_ok y -> log_ok (snd (upstream oracle headers y rq))).
+    { intros y Hy items stored err e Hi He. unfold upstream in *. cbn [snd cs_log cs_upstream] in *.
+      destruct (Hy items stored err e Hi He) as (run & rq' & res & Hu & Hs).
+      exists run, rq', res. split; [apply in_or_app; left; exact Hu|exact Hs]. }
+    destruct (keys_of rq) as [|k ks] eqn:K; [apply Hup; exact H|].
+    assert (Hlk : forall o x1, lookup cfaults x (k :: ks) = (o, x1) -> log_ok x1).
+    { intros o x1 L. unfold lookup in L.
+      assert (Hadd : forall c calls g, log_ok {| cs_cache := c; cs_calls := calls; cs_run := cs_run x; cs_log := cs_log x ++ [g];
+                                                 cs_upstream := cs_upstream x; cs_reported := cs_reported x |} \/ True) by (intros; right; exact I).
+      destruct (cfaults (cs_calls x)); cbv zeta in L;
+        try (match type of L with (if ?b then _ else _) = _ => destruct b end);
+        inversion L; subst; intros items stored err e Hi He; cbn [cs_log cs_upstream] in *;
+        (apply in_app_or in Hi as [Hi|[Hi|[]]]; [|discriminate]); exact (H items stored err e Hi He). }
+    destruct (lookup cfaults x (k :: ks)) as [o x1] eqn:L.
+    specialize (Hlk o x1 eq_refl).
+    destruct o as [vals|]; [exact Hlk|].
+    unfold upstream. cbn [fst snd].
+    set (res := with_cc (oracle rq) (headers (cs_run x1) (rq_fetch rq))).
+    set (x2 := {| cs_cache := cs_cache x1; cs_calls := cs_calls x1; cs_run := cs_run x1; cs_log := cs_log x1;
+                  cs_upstream := cs_upstream x1 ++ [(cs_run x1, rq, res)]; cs_reported := cs_reported x1 |}).
+    assert (H2 : log_ok x2).
+    { intros items stored err e Hi He. cbn [cs_log cs_upstream x2] in *.
+      destruct (Hlk items stored err e Hi He) as (run & rq' & res' & Hu & Hs).
+      exists run, rq', res'. split; [apply in_or_app; left; exact Hu|exact Hs]. }
+    destruct (collect default_ttl (k :: ks) res) as [| |items] eqn:C; cbn [snd].
+    - exact H2.
+    - intros items stored err e Hi He. exact (H2 items stored err e Hi He).
+    - unfold flush. destruct items as [|i0 items']; [exact H2|].
+      remember (i0 :: items') as items eqn:Hitems.
+      intros items2 stored err e Hi He. cbn [cs_log cs_upstream] in *.
+      apply in_app_or in Hi as [Hi|[Hi|[]]].
+      + exact (H2 items2 stored err e Hi He).
+      + inversion Hi; subst items2. exists (cs_run x1), rq, res. split.
+        * cbn [x2 cs_upstream]. apply in_or_app. right. left. reflexivity.
+        * eapply collect_sound; [symmetry; exact K|exact C|exact He].
+  Qed.
+
+  Theorem history_log_ok : forall h x, log_ok x ->
+    log_ok (snd (run_history (exchange_cache oracle headers cfaults default_ttl) h x)).
+  Proof.
+    induction h as [|[root t] r IH]; intros x Hx; [exact Hx|].
+    simpl. unfold load.
+    pose proof (run_tree_inv cstate _ log_ok exchange_log_ok t init_state x Hx) as H1.
+    destruct (run_tree cstate (exchange_cache oracle headers cfaults default_ttl) t (init_state, x)) as [s1 y1]. simpl in H1.
+    assert (H2 : log_ok (next_run y1)) by exact H1.
+    specialize (IH (next_run y1) H2).
+    destruct (run_history (exchange_cache oracle headers cfaults default_ttl) r (next_run y1)) as [o z]. exact IH.
+  Qed.
+
+  Theorem stored_implies_storable_proof : forall h,
+    log_ok (snd (run_history (exchange_cache oracle headers cfaults default_ttl) h init_cstate)).
+  Proof. intros h. apply history_log_ok. intros items stored err e []. Qed.
+End Stored.
+
+(* ---- all or nothing: a request is either answered entirely from the cache or sent upstream whole ---- *)
+Section AllOrNothing.
+  Variable oracle : request -> response.
+  Variable headers : nat -> N -> list bytes.
+  Variable cfaults : nat -> cfault.
+  Variable default_ttl : Z.
+
+  Lemma flush_upstream : forall x items, cs_upstream (flush cfaults x items) = cs_upstream x.
+  Proof. intros x items. unfold flush. destruct items; reflexivity. Qed.
+
+  Lemma lookup_upstream : forall x keys o x1, lookup cfaults x keys = (o, x1) ->
+    cs_upstream x1 = cs_upstream x /\ cs_run x1 = cs_run x /\ forall vals, o = Some vals -> length vals = length keys.
+  Proof.
+    intros x keys o x1 L. unfold lookup in L.
+    destruct (cfaults (cs_calls x)); cbv zeta in L;
+      try (match type of L with (if ?b then _ else _) = _ => destruct b end);
+      inversion L; subst; cbn [cs_upstream cs_run]; (split; [reflexivity|split; [reflexivity|]]);
+      intros vals Hv; try discriminate; inversion Hv; apply map_length.
+  Qed.
+
+  Theorem all_or_nothing_proof : forall x rq,
+    let r := exchange_cache oracle headers cfaults default_ttl x rq in
+    cs_upstream (snd r) = cs_upstream x ++ [(cs_run x, rq, fst r)] \/
+    (cs_upstream (snd r) = cs_upstream x /\ rq_reps rq <> [] /\
+     exists vals, fst r = entities_response vals /\ length vals = length (rq_reps rq)).
+  Proof.
+    intros x rq. unfold exchange_cache.
+    destruct (keys_of rq) as [|k ks] eqn:K; [left; reflexivity|].
+    destruct (lookup cfaults x (k :: ks)) as [o x1] eqn:L.
+    destruct (lookup_upstream _ _ _ _ L) as (Hu & Hr & Hl).
+    destruct o as [vals|].
+    - right. cbn [fst snd]. split; [exact Hu|]. split.
+      + intro E. unfold keys_of in K. rewrite E in K. discriminate.
+      + exists vals. split; [reflexivity|]. rewrite (Hl vals eq_refl), <- K. unfold keys_of. apply map_length.
+    - left. unfold upstream. cbn [fst snd].
+      destruct (collect default_ttl (k :: ks) (with_cc (oracle rq) (headers (cs_run x1) (rq_fetch rq)))); cbn [fst snd];
+        try rewrite flush_upstream; cbn [cs_upstream report]; rewrite Hu, Hr; reflexivity.
+  Qed.
+End AllOrNothing.
